@@ -195,6 +195,38 @@ def giveup_rule(cfg):
     return out
 
 
+def column_rule(rep, g):
+    rep.rule("C04.f", "positions do not depend on where the buffer ends: in the name scanners (XMLReader::getName, getNCName) the "
+             "characters of a name are copied out in pieces whenever the character buffer runs out; every such copy "
+             "`toFill.append(&fCharBuf[start], n)` is accompanied, in the same basic block, by `fCurCol += n` with the same n — a piece "
+             "copied without advancing the column makes every later position on that line depend on the refill boundary")
+    n = 0
+    for q in ("XMLReader::getName", "XMLReader::getNCName"):
+        for raw in g.cfgs.get(q, []):
+            cfg = guard.Cfg(raw)
+            for bid, blk in sorted(cfg.blocks.items()):
+                for el in blk["els"]:
+                    for c in guard.el_top_calls(el):
+                        if not (c[0] == "c" and c[1] == "XMLBuffer::append" and len(c[3]) == 2 and c[3][0][0] == "u" and c[3][0][1] == "&"):
+                            continue
+                        n += 1
+                        N = c[3][1]
+                        adds = []
+                        for e2 in blk["els"]:
+                            x = e2.get("x")
+                            if x and x[0] == "b" and x[1] == "+=" and x[2] == ["f", "XMLReader::fCurCol"]:
+                                r = x[3]
+                                while r[0] == "cast":
+                                    r = r[2]
+                                adds.append(r)
+                        ok = any(a == N for a in adds)
+                        rep.ob("C04.f", "%s@append:%s" % (q, el.get("l")), ok, "column advanced by the same count" if ok else
+                               "%s (line %s) copies %s name characters out of the buffer without adding that count to fCurCol in the same "
+                               "step: positions reported later on the line are short by the part of the name that preceded the refill" % (
+                                   q, el.get("l"), core.sx_str(N)), "%s:%s" % (cfg.file, el.get("l", 0)))
+    rep.floor("C04.f", n, 5)
+
+
 def run(rep):
     tus = [os.path.join(core.REPO, READER_TU)]
     g = core.run_xa(tus, cfg="^XMLReader::", flat=False)
@@ -262,6 +294,7 @@ def run(rep):
     readbytes_rule(rep)
     from . import C05
     C05.utf8_advance_rule(rep, "C04.e")
+    column_rule(rep, g)
     rep.undecided += ["equality of the event stream across partitions of the input (refill arithmetic, transcoders' bytesEaten): value-level",
                       "error positions across source types"]
     rep.assumptions += ["refreshCharBuffer() true guarantees only one available character (it returns true with just the spare character)",
